@@ -167,3 +167,18 @@ func (c *Check) archObligation() {
 	}
 	c.OK("selftest", "goarch-386", "the same rules hold on the GOARCH=386 build configuration (second load in a fresh process)")
 }
+
+// vetCopylocks runs the standard copylocks analyzer of `go vet` over the given packages of
+// /repo (a zero-code side rule: no value containing a mutex is copied).
+func (c *Check) vetCopylocks(pkgs ...string) {
+	args := append([]string{"vet", "-copylocks"}, pkgs...)
+	cmd := exec.Command("go", args...)
+	cmd.Dir = repoDir()
+	cmd.Env = append(os.Environ(), "GOFLAGS=-mod=vendor", "GOWORK=off", "GOPROXY=off", "GOSUMDB=off", "GOTOOLCHAIN=local")
+	out, err := cmd.CombinedOutput()
+	if err != nil {
+		c.Fail("vet-copylocks", strings.Join(pkgs, ","), "go vet -copylocks reports no by-value copy of a lock-holding struct", firstLines(string(out), 10))
+		return
+	}
+	c.OK("vet-copylocks", strings.Join(pkgs, ","), "go vet -copylocks reports no by-value copy of a lock-holding struct in "+strings.Join(pkgs, ", "))
+}
